@@ -57,6 +57,73 @@ def switch_sides(body, sb, neg=False):
     return tt, ft
 
 
+def _cp_tracked(body):
+    """bool locals that are assigned a literal constant somewhere (short-circuit `&&`/`||` results,
+    `matches!` results, drop flags) plus locals computed from them by copy / Not"""
+    t = getattr(body, '_cp_tracked', None)
+    if t is not None: return t
+    base = set()
+    for bi, st in body.stmts():
+        d = st['dst']
+        if d['p'] or body.locals[d['l']] != 'bool': continue
+        rv = st['rv']
+        if rv['k'] == 'use' and rv['ops'][0]['k'] == 'const' and rv['ops'][0]['v'] in ('true', 'false'): base.add(d['l'])
+    changed = True
+    while changed:
+        changed = False
+        for bi, st in body.stmts():
+            d = st['dst']; rv = st['rv']
+            if d['p'] or d['l'] in base or body.locals[d['l']] != 'bool': continue
+            if rv['k'] in ('use', 'un') and rv['ops'][0]['k'] in ('copy', 'move') and rv['ops'][0]['pl']['l'] in base and not rv['ops'][0]['pl']['p']:
+                base.add(d['l']); changed = True
+        for c in body.calls:
+            if NOT_CALL.search(c.name) and c.arg_local(0) in base and c.dst['l'] not in base:
+                base.add(c.dst['l']); changed = True
+    body._cp_tracked = base
+    return base
+
+
+def reach_cp(body, starts, stop=()):
+    """forward reachability with constant propagation of short-circuit bool locals: a switch on a
+    local whose value is known on this path follows only the matching target."""
+    tracked = _cp_tracked(body)
+    if not tracked: return body.reach(starts, stop)
+    seen = set(); out = set(); work = [(s, frozenset()) for s in starts if s not in stop]
+    while work:
+        bi, env = work.pop()
+        if (bi, env) in seen: continue
+        seen.add((bi, env)); out.add(bi)
+        if len(seen) > 40000: return body.reach(starts, stop)     # give up: plain (over-approximate) reachability
+        e = dict(env)
+        blk = body.blocks[bi]
+        for st in blk['st']:
+            if 'dst' not in st: continue
+            d = st['dst']
+            if d['p'] or d['l'] not in tracked: continue
+            rv = st['rv']; o = rv.get('ops', [None])[0] if rv.get('ops') else None
+            if rv['k'] == 'use' and o['k'] == 'const' and o['v'] in ('true', 'false'): e[d['l']] = (o['v'] == 'true')
+            elif rv['k'] == 'use' and o['k'] in ('copy', 'move') and not o['pl']['p'] and o['pl']['l'] in e: e[d['l']] = e[o['pl']['l']]
+            elif rv['k'] == 'un' and rv['op'] == 'Not' and o['k'] in ('copy', 'move') and o['pl']['l'] in e: e[d['l']] = not e[o['pl']['l']]
+            else: e.pop(d['l'], None)
+        t = blk['term']
+        succs = body.succ(bi)
+        if t['k'] == 'call':
+            dl = t['dst']['l']
+            if dl in tracked:
+                nm = t['r'] or t['f']; a0 = t['args'][0] if t['args'] else None
+                if NOT_CALL.search(nm) and a0 and a0['k'] in ('copy', 'move') and a0['pl']['l'] in e: e[dl] = not e[a0['pl']['l']]
+                else: e.pop(dl, None)
+        elif t['k'] == 'switch' and t['d']['k'] != 'const' and not t['d']['pl']['p'] and t['d']['pl']['l'] in e:
+            v = 1 if e[t['d']['pl']['l']] else 0
+            m = {val: tg for val, tg in t['ts']}
+            succs = [m.get(v, t['else'])]
+        fe = frozenset(e.items())
+        for s in succs:
+            if s in stop or body.blocks[s]['cleanup']: continue
+            work.append((s, fe))
+    return out
+
+
 class GuardInfo:
     def __init__(self, body, src_bb, sb, neg):
         self.body = body; self.src_bb = src_bb; self.switch_bb = sb
@@ -64,7 +131,7 @@ class GuardInfo:
         oks = body.strict_ok_exits(); errs = body.err_exits()
         def side(t):
             if t is None: return dict(ok=False, err=False, blocks=set())
-            r = body.reach([t])
+            r = reach_cp(body, [t])
             return dict(ok=bool(r & oks), err=bool(r & errs), blocks=r)
         self.true_side = side(self.true_bb); self.false_side = side(self.false_bb)
 
@@ -365,3 +432,151 @@ def f64_const(v):
     m = re.match(r'^(-?[0-9]+)_?[iu](8|16|32|64|128|size)$', v)
     if m: return float(m.group(1))
     return None
+
+
+TRANSPARENT = re.compile(r'::(as_ref|as_mut|as_deref|deref|deref_mut|branch|with_context|context|ok_or|ok_or_else|unwrap|expect|clone|cloned|copied|into_owned|borrow|as_slice|into|from)(::<.*>)?$')
+
+
+def access_path(body, operand, depth=12):
+    """fields crossed when following the unique-definition chain of an operand backwards through
+    plain copies, references and transparent adaptors (`as_ref`, `?`, `deref`, `with_context`, ...).
+    Flow-sensitive in the sense that only single-definition locals are followed.  Returns
+    (fields list outermost-last, root local or None, calls crossed)."""
+    fields = []; calls = []
+    if operand['k'] not in ('copy', 'move'): return fields, None, calls
+    pl = operand['pl']
+    for _ in range(depth):
+        fields = fields_of_place(pl) + fields
+        l = pl['l']
+        if 1 <= l <= body.argc: return fields, l, calls
+        defs = body.defs_of(l)
+        defs = [d for d in defs if not (d[0] == 'stmt' and d[2]['dst']['p'])]
+        if len(defs) != 1: return fields, l, calls
+        k, bi, d = defs[0]
+        if k == 'stmt':
+            rv = d['rv']
+            if rv['k'] == 'use' and rv['ops'][0]['k'] in ('copy', 'move'): pl = rv['ops'][0]['pl']; continue
+            if rv['k'] == 'ref': pl = rv['pl']; continue
+            return fields, l, calls
+        else:
+            nm = d['r'] or d['f']
+            if TRANSPARENT.search(strip_generics_tail(nm)) and d['args'] and d['args'][0]['k'] in ('copy', 'move'):
+                calls.append(nm); pl = d['args'][0]['pl']; continue
+            calls.append(nm)
+            return fields, l, calls
+    return fields, None, calls
+
+
+def strip_generics_tail(nm):
+    # drop a trailing ::<...> turbofish so the item name is last
+    if nm.endswith('>') and '::<' in nm:
+        depth = 0
+        for i in range(len(nm) - 1, -1, -1):
+            if nm[i] == '>' and (i == 0 or nm[i - 1] != '-'): depth += 1
+            elif nm[i] == '<':
+                depth -= 1
+                if depth == 0:
+                    if nm[i - 2:i] == '::': return nm[:i - 2]
+                    return nm
+    return nm
+
+
+# ------------------------------------------------------------------------------- local expression trees
+def expr(body, operand, depth=10):
+    """Reconstruct the expression computing `operand` by following single-definition locals
+    (SSA-like temporaries).  Nodes:
+       ('const', text) | ('place', root_local, [(adt, field)...]) | ('bin', op, a, b) | ('un', op, a)
+       | ('cast', to, a) | ('call', item, name, [args]) | ('agg', adt, [ops]) | ('local', l)"""
+    if operand['k'] == 'const': return ('const', operand['v'])
+    if operand['k'] not in ('copy', 'move'): return ('local', -1)
+    pl = operand['pl']
+    fs = fields_of_place(pl)
+    l = pl['l']
+    if depth <= 0: return ('place', l, fs) if fs else ('local', l)
+    if 1 <= l <= body.argc: return ('place', l, fs)
+    defs = [d for d in body.defs_of(l) if not (d[0] == 'stmt' and d[2]['dst']['p'])]
+    if len(defs) != 1: return ('place', l, fs) if fs else ('local', l)
+    k, bi, d = defs[0]
+    if k == 'call':
+        c = None
+        for x in body.calls:
+            if x.bb == bi: c = x; break
+        node = ('call', c.item, c.name, [expr(body, a, depth - 1) for a in d['args']])
+        return ('proj', node, fs) if fs else node
+    rv = d['rv']; kk = rv['k']
+    if kk == 'use':
+        inner = expr(body, rv['ops'][0], depth - 1)
+    elif kk == 'ref':
+        inner = expr(body, {'k': 'copy', 'pl': rv['pl']}, depth - 1)
+    elif kk == 'bin':
+        inner = ('bin', rv['op'], expr(body, rv['ops'][0], depth - 1), expr(body, rv['ops'][1], depth - 1))
+    elif kk == 'un':
+        inner = ('un', rv['op'], expr(body, rv['ops'][0], depth - 1))
+    elif kk == 'cast':
+        inner = ('cast', rv['to'], expr(body, rv['ops'][0], depth - 1))
+    elif kk == 'agg':
+        inner = ('agg', rv['adt'], [expr(body, o, depth - 1) for o in rv['ops']])
+    elif kk == 'discr':
+        inner = ('discr', expr(body, {'k': 'copy', 'pl': rv['pl']}, depth - 1))
+    else:
+        inner = ('local', l)
+    if fs:
+        if inner[0] == 'place': return ('place', inner[1], inner[2] + fs)
+        return ('proj', inner, fs)
+    return inner
+
+
+def expr_walk(e):
+    yield e
+    if not isinstance(e, tuple): return
+    for x in e[1:]:
+        if isinstance(x, tuple) and x and isinstance(x[0], str):
+            yield from expr_walk(x)
+        elif isinstance(x, list):
+            for y in x:
+                if isinstance(y, tuple) and y and isinstance(y[0], str): yield from expr_walk(y)
+
+
+def expr_calls(e):
+    return [x for x in expr_walk(e) if x[0] == 'call']
+
+
+def expr_has_call(e, item=None, name_re=None):
+    for x in expr_calls(e):
+        if item is not None and x[1] != item: continue
+        if name_re is not None and not re.search(name_re, x[2]): continue
+        return True
+    return False
+
+
+def expr_fields(e):
+    out = []
+    for x in expr_walk(e):
+        if x[0] == 'place': out += x[2]
+        elif x[0] == 'proj': out += x[2]
+    return out
+
+
+def strip_wrappers(e):
+    """peel transparent wrappers: casts between same-kind types are kept; ?-payload projections, refs and
+    transparent calls (clone/into/from/deref/branch/...) are removed"""
+    while True:
+        if e[0] == 'proj': e = e[1]; continue
+        if e[0] == 'call' and TRANSPARENT.search(strip_generics_tail(e[2])) and e[3]: e = e[3][0]; continue
+        return e
+
+
+def expr_str(e, depth=6):
+    if depth <= 0: return '…'
+    k = e[0]
+    if k == 'const': return e[1][:30]
+    if k == 'place': return '_%d%s' % (e[1], ''.join('.' + f for a, f in e[2]))
+    if k == 'local': return '_%d' % e[1]
+    if k == 'bin': return '(%s %s %s)' % (expr_str(e[2], depth - 1), e[1], expr_str(e[3], depth - 1))
+    if k == 'un': return '%s(%s)' % (e[1], expr_str(e[2], depth - 1))
+    if k == 'cast': return '(%s as %s)' % (expr_str(e[2], depth - 1), e[1])
+    if k == 'call': return '%s(%s)' % (e[1], ', '.join(expr_str(a, depth - 1) for a in e[3]))
+    if k == 'agg': return '%s{%s}' % (e[1].split('::')[-1], ', '.join(expr_str(a, depth - 1) for a in e[2]))
+    if k == 'proj': return '%s%s' % (expr_str(e[1], depth - 1), ''.join('.' + f for a, f in e[2]))
+    if k == 'discr': return 'discr(%s)' % expr_str(e[1], depth - 1)
+    return str(e)[:40]
